@@ -296,8 +296,142 @@ def tree_behaviours(run, kind, depth):
     return json_lines(res.stdout, 'BEH')
 
 
+LOOKUPS = ['get', 'getitem', 'get_one', 'type_get']
+
+
+def concurrent_lookups(run):
+    """Lookups racing with a re-indexing update of the same object, on real threads: the states table of a real MDIB,
+    its lock traced, one more scheduling point between un-filing and re-filing inside update_object.  Threads.tla
+    enumerates every interleaving; each is executed; MultiKeyConcTrace judges what the lookups returned."""
+    import threading
+
+    from verif.mdibharness import load_mdib, table_agrees
+    from verif.sched import Scheduler, TracedLock
+    from verif.threads_engine import _SchedRef, enumerate_schedules
+    ref = _SchedRef(Scheduler(record_only=True))
+    handle = 'numeric.ch0.vmd0'
+
+    class SnapLock(TracedLock):
+        """The lookups hand out the lists the index stores; a later update changes them in place.  What a lookup
+        returned is therefore copied where it returns: still inside its locked section (hook before the release) -
+        or, for a lookup that takes no lock, right after the call."""
+        hooks = {}
+
+        def release(self):
+            me = threading.get_ident()
+            if self._depth.get(me, 0) == 1 and me in self.hooks:
+                self.hooks[me]()
+            return super().release()
+
+    def mk():
+        mdib = load_mdib()
+        table = mdib.states
+        traced = SnapLock(table._lock, 'tab', ref)     # noqa: SLF001
+        traced.hooks = {}
+        table._lock = traced                           # noqa: SLF001
+        for idx in table._idx_defs.values():           # noqa: SLF001
+            idx.set_lock(traced)
+        orig_mk = table._mk_indices                    # noqa: SLF001
+
+        def mk_indices(obj):
+            ref.point('step', 'tab')                   # un-filed, not yet re-filed
+            return orig_mk(obj)
+        table._mk_indices = mk_indices                 # noqa: SLF001
+        st = table.descriptor_handle.get_one(handle)
+        out = {'lookups': [], 'errors': []}
+
+        def scan(pred):
+            return sorted(id(o) for o in list(table._objects) if pred(o))   # noqa: SLF001
+
+        def writer():
+            ref.point('step', 'none')
+            try:
+                st.StateVersion += 1
+                table.update_object(st)
+            except Exception as ex:  # noqa: BLE001
+                out['errors'].append(type(ex).__name__)
+
+        def reader(kind):
+            def fn():
+                ref.point('step', 'none')
+                exc, got, inside = '', [], []
+                idx = table.NODETYPE if kind == 'type_get' else table.descriptor_handle
+                key = st.NODETYPE if kind == 'type_get' else handle
+                # (dict.get on the index itself: what the index holds for the key at this instant)
+                traced.hooks[threading.get_ident()] = lambda: inside.append(list(dict.get(idx, key) or []))
+                try:
+                    if kind in ('get', 'type_get'):
+                        got = list(idx.get(key) or [])
+                    elif kind == 'getitem':
+                        got = list(idx[key])
+                    else:
+                        got = [idx.get_one(key)]
+                except Exception as ex:  # noqa: BLE001
+                    exc = type(ex).__name__
+                finally:
+                    traced.hooks.pop(threading.get_ident(), None)
+                if inside and not exc:
+                    got = inside[-1]
+                pred = (lambda o: o.NODETYPE == st.NODETYPE) if kind == 'type_get' else (lambda o: o.DescriptorHandle == handle)
+                out['lookups'].append({'what': kind, 'exc': exc, 'got': sorted(id(o) for o in got), 'scan': scan(pred)})
+            return fn
+        return mdib, table, writer, reader, out, table_agrees
+
+    traces = []
+    scenarios = [(k,) for k in LOOKUPS] + [('get', 'type_get')]
+    for si, kinds in enumerate(scenarios):
+        programs = {}
+        for tid in range(1, 2 + len(kinds)):
+            _m, _t, writer, reader, _o, _a = mk()
+            fn = writer if tid == 1 else reader(kinds[tid - 2])
+            ref.s = Scheduler(record_only=True)
+            ref.s.run_free(tid, fn)
+            programs[tid] = list(ref.s.programs[tid])
+        run.note(f'lookup_thread_programs_{si}', {str(t): [f"{e['op']}:{e['lock']}" for e in p] for t, p in programs.items()})
+        scheds = enumerate_schedules(run, f'c11look_{si}', programs, sorted(programs), limit=None, seed=run.seed + si)
+        run.count('lookup_schedules', len(scheds))
+        recs = [{'act': 'Init'}]
+        for sc in scheds:
+            _m, table, writer, reader, out, agrees = mk()
+            fns = {1: writer}
+            for k, kind in enumerate(kinds):
+                fns[2 + k] = reader(kind)
+            s = Scheduler()
+            ref.s = s
+            threads = {tid: s.spawn(tid, fn) for tid, fn in fns.items()}
+            try:
+                for tid in sc['sched']:
+                    s.grant(tid)
+                for tid in threads:
+                    s.wait_parked_or_finished(tid)
+                    if tid not in s.finished:
+                        raise MachineryError(f'lookup thread {tid} still has events after the schedule ended')
+            finally:
+                with s.cv:
+                    s.failed = s.failed or 'run over'
+                    s.cv.notify_all()
+            for th in threads.values():
+                th.join(timeout=5)
+            ref.s = Scheduler(record_only=True)
+            out['errors'] += [f'thread {t}: {type(e).__name__}' for t, e in sorted(getattr(s, 'errors', {}).items())]
+            recs.append({'act': 'Race', 'kinds': list(kinds), 'schedule': list(sc['sched']), 'lookups': out['lookups'],
+                         'errors': out['errors'], 'agree': bool(agrees(table))})
+            run.distinct_traces.add(('lookups', kinds, tuple(sc['sched'])))
+        traces.append(recs)
+    rejects = tracecheck.validate(run, 'MultiKeyConcTrace', 'MultiKeyConcTrace.cfg', traces)
+    for (ti, li, clause) in tracecheck.first_rejects(rejects):
+        rec = traces[ti][li]
+        descr = {'check': 'table', 'table': 'states', 'act': 'Race', 'clause': clause}
+        if run.is_known(descr):
+            continue
+        run.violation(descr, f'{clause}: lookups {rec["kinds"]} racing with update_object under schedule {rec["schedule"]}: '
+                             f'{[(x["what"], x["exc"], len(x["got"]), len(x["scan"])) for x in rec["lookups"]]}',
+                      {'trace': traces[ti], 'failing_record': li})
+
+
 def check(run, replay_path=None):
     import os
+    concurrent_lookups(run)
     from verif.tlc import SPEC_DIR
     # 1. design: exhaustive model check (3 objects, 2 keys, all attribute vectors)
     res = run_tlc('MultiKeyMC', 'MultiKey_mc.cfg', coverage=True)
